@@ -96,8 +96,30 @@ def _lib_from_corpus(rng, pid_pool):
     path = rng.choice(pid_pool) if pid_pool and rng.random() < 0.5 else rng.choice(sorted(c))
     e = c[path]
     goals = _goal_specs(rng, e["goals"], rng.choice([1, 2, 2, 3]))
-    return {"kind": "lib", "pid": path, "program": {"path": path}, "goals": goals, "options": dict(rng.choice(OPTION_SWARM)),
+    spec = {"kind": "lib", "pid": path, "program": {"path": path}, "goals": goals, "options": dict(rng.choice(OPTION_SWARM)),
             "api": rng.choice(["raw", "common", "common"]), "force_cyclic": rng.random() < 0.1}
+    if not e["probabilistic"] and not e["symbols"] and len(e["vars"]) <= 3 and rng.random() < 0.4:
+        # invariant ideal among the raw goals (InvariantIdeal draws fresh names _b<k>, _inv<k> and iterates over symbol sets)
+        spec["goals"] = [{"monom": g, "kind": "raw"} for g in e["goals"] if "*" not in g][:3]
+        spec["invariants"] = True
+        spec["force_cyclic"] = False
+    elif _is_guarded(path) and rng.random() < 0.3:
+        spec["goals"] = [{"monom": g["monom"], "kind": "after_loop"} for g in goals if g.get("kind") == "raw"][:2] or goals
+    return spec
+
+
+_guarded = {}
+
+
+def _is_guarded(path):
+    if path not in _guarded:
+        try:
+            with open(os.path.join(os.environ.get("POLAR_REPO", "/repo"), path)) as f:
+                txt = f.read()
+            _guarded[path] = "while true" not in txt.replace("  ", " ")
+        except OSError:
+            _guarded[path] = False
+    return _guarded[path]
 
 
 def _lib_generated(rng):
@@ -625,6 +647,8 @@ def _probes(case, wres):
     p["counter_collision_candidate"] = 1 if any(pp.get("mode") == "at_least" for o in case["ops"] for pp in o.get("pre", [])) else 0
     p["cache_shrink_world"] = 1 if case.get("world_flags", {}).get("cache_shrink") else 0
     p["sensitivity_session"] = 1 if any(str(s.get("pid", "")).startswith("sens:") for s in case["sessions"]) else 0
+    p["lib_invariants_session"] = 1 if any(s.get("invariants") for s in case["sessions"] if s["kind"] == "lib") else 0
+    p["after_loop_goal"] = 1 if any(g.get("kind") == "after_loop" for s in case["sessions"] if s["kind"] == "lib" for g in s.get("goals", [])) else 0
     p["abandoned_or_repeated"] = 1
     # cause hint: a step after which the global options no longer equal the owning session's vector (CLI sessions own argv's options)
     p["settings_changed_during_step"] = sum(1 for o, r in zip(case["ops"], wres["results"])
